@@ -284,6 +284,23 @@ fn locate(src: &str, file: &syn::File, spec: &ItemSpec) -> Result<Found, Lost> {
                 }
             }
         }
+        "inner_fn" => {
+            // a `fn` item declared inside the body of the free function `<fn>`: hoisted to the top level (an item statement
+            // is a declaration; it captures nothing, so where it is declared changes nothing)
+            let outer = spec.in_fn.clone().unwrap_or_default();
+            for it in items {
+                if let syn::Item::Fn(f) = it {
+                    if f.sig.ident != outer.as_str() { continue; }
+                    for st in &f.block.stmts {
+                        if let syn::Stmt::Item(syn::Item::Fn(inner)) = st {
+                            if inner.sig.ident == name.as_str() {
+                                return Ok(mk(inner.span()));
+                            }
+                        }
+                    }
+                }
+            }
+        }
         "impls_of" => {
             // every `impl <Trait> for <name>` of the file (possibly none): used to see whether a type gains a trait
             let mut text = String::new();
